@@ -22,9 +22,9 @@ ID = "C18"
 LEVEL = "exploration"
 EXHAUSTIVE = {"quick": True, "thorough": True}
 RULE = (
-    "cases = (rule set out of 14 - one to three rules per command over scopes global / ip / specific IPv4 / specific IPv6 "
-    "address with n in {-1,1,2,3} and intervals s/m -, arrival sequence). ALL sequences of length 3 for every rule set and of length 4 for four of them (quick), of length 5 for all (thorough), "
-    "over time steps {0, 1/2, 1, 2} x interval, 2 addresses + the specially-ruled one and 2 commands are "
+    "cases = (rule set out of 17 - one to three rules per command over scopes global / ip / specific IPv4 / specific IPv6 "
+    "address with n in {-1,1,2,3} and intervals s/m -, arrival sequence). ALL sequences of length 3 for every rule set and of length 4 for two of them (quick), of length 4 for all and 5 for four (thorough), "
+    "over time steps {0, 1/2, 1, 2} x interval, 2 addresses + the specially-ruled one, 2 commands and a CLEANUP action (what a disconnect triggers) are "
     "enumerated; seeded random sequences of 2000 steps on top; growth runs of L and 4L messages just below the limit. "
     "Non-trivial = a sequence containing at least one refusal or a decision at an exact window boundary. Distinct = "
     "distinct (rule set, decision-relevant prefix)."
@@ -53,6 +53,9 @@ RULESETS = [
     {"global": {"EVENT": "1/s"}, AS6: {"EVENT": "-1/s"}},
     {"ip": {"EVENT": "-1/s", "REQ": "1/s"}},
     {"global": {"REQ": "2/s,3/m"}, "ip": {"REQ": "1/s"}},
+    {"global": {"EVENT": "2/s"}, AS4: {"REQ": "3/s"}},
+    {"ip": {"EVENT": "1/s"}, AS6: {"CLOSE": "-1/s"}},
+    {"ip": {"EVENT": "2/s"}, AS4: {"EVENT": "2/m"}},
 ]
 UNITS = {"s": 1, "m": 60, "h": 3600}
 
@@ -149,6 +152,11 @@ def judge_sequence(rsi, seq, counters, viols, nontrivial, distinct_prefix=True):
     for step, (dt, addr, cmd) in enumerate(seq):
         clock.t += dt
         now = clock.t
+        if cmd == "CLEANUP":
+            # what web.start_client calls whenever any connection ends: must not change decisions
+            lim.cleanup()
+            counters["cleanups"] = counters.get("cleanups", 0) + 1
+            continue
         full = refm.full(addr, cmd, now)
         got = bool(lim.is_limited(addr, [cmd]))
         alt_says = alt.decide(addr, cmd, now)
@@ -196,17 +204,18 @@ def alphabet(rsi):
     cmds = sorted({c for scope in rs.values() for c in scope})
     if len(cmds) == 1:
         cmds = cmds + ["CLOSE"]
-    return [(dt, a, c) for dt in steps for a in addrs for c in cmds]
+    return [(dt, a, c) for dt in steps for a in addrs for c in cmds] + [(dt, "-", "CLEANUP") for dt in steps[:3]]
 
 
 def plan(tier, seed):
-    depth = 4 if tier == "quick" else 5
     shards = []
     for rsi in range(len(RULESETS)):
-        parts = 4 if tier == "quick" else 8
-        d = depth if (tier != "quick" or rsi in (3, 7, 9, 10)) else 3
-        for p in range(parts if d > 3 else 1):
-            shards.append({"mode": "enum", "ruleset": rsi, "depth": d, "part": p, "parts": parts if d > 3 else 1, "case_seed": seed})
+        if tier == "quick":
+            d, parts = (4, 8) if rsi in (3, 16) else (3, 1)
+        else:
+            d, parts = (5, 32) if rsi in (3, 7, 14, 16) else (4, 8)
+        for p in range(parts):
+            shards.append({"mode": "enum", "ruleset": rsi, "depth": d, "part": p, "parts": parts, "case_seed": seed})
     shards.append({"mode": "random", "case_seed": seed, "n": 30 if tier == "quick" else 300})
     shards.append({"mode": "growth", "case_seed": seed})
     shards.append({"mode": "integration", "case_seed": seed})
